@@ -2620,6 +2620,15 @@ impl KotoVm {
                         match value {
                             Tuple(new_entry) if new_entry.len() == 2 => {
                                 let key = ValueKey::try_from(new_entry[0].clone())?;
+                                // The new key has to be unique in the map,
+                                // apart from the entry that's being replaced.
+                                if let Some(existing_index) = map_data.get_index_of(&key)
+                                    && existing_index != u_index
+                                {
+                                    return runtime_error!(
+                                        "the key '{key}' already exists at index {existing_index}"
+                                    );
+                                }
                                 // There's no API on IndexMap for replacing an entry,
                                 // so use swap_remove_index to remove the old entry,
                                 // then insert the new entry at the end of the map,
